@@ -377,6 +377,10 @@ def search(ctx, rng, budget):
                 if np.any((np.abs(g - rmax) < 1e-3 * max(1, rmax)) & (g != rmax)):
                     rmax += 0.0123
                 ranges.append((rmin, rmax, c, r0, s, red))
+            if len(ranges) >= 1 and rng.random() < 0.5:
+                z = ranges[0]
+                pos = int(rng.integers(0, len(ranges) + 1)) if rng.random() < 0.5 else 0
+                ranges.insert(pos, (z[0], z[1], np.zeros_like(np.asarray(z[2], dtype=float)), z[3], z[4], z[5]))
             run('piecewise', (g, ranges), lambda A, d: 'C10:piecewise:' + d.split('[')[0], ('pw', len(ranges)))
             R, C, _, _, _, _, _ = gen_spoly_args(rng)
             sr = []
@@ -386,6 +390,12 @@ def search(ctx, rng, budget):
                 if np.any((np.abs(R - rmax) < 1e-3 * max(1, rmax)) & (R != rmax)):
                     rmax += 0.0123
                 sr.append((rmin, rmax, c, r0, s))
+            # pieces with all-zero coefficients (or an empty range) at every position of the list,
+            # the first one included: a sum of pieces must not depend on which piece comes first
+            if len(sr) >= 1 and rng.random() < 0.6:
+                zc = np.zeros_like(sr[0][2])
+                pos = int(rng.integers(0, len(sr) + 1)) if rng.random() < 0.5 else 0
+                sr.insert(pos, (sr[0][0], sr[0][1], zc, sr[0][3], sr[0][4]))
             run('piecewise_s', (R, C, sr), lambda A, d: 'C10:piecewise_s:' + d.split('[')[0], ('pws', len(sr)))
             # copies and scalar multiplication
             kind = ['Polynomial', 'PiecewisePolynomial', 'SPolynomial'][it // 3 % 3]
